@@ -18,9 +18,12 @@
    plus pins of the constants the property names and concrete examples. *)
 From RM Require Import Model.Sections Model.SectionsSpec.
 From RM Require Import Proofs.FloatCmp Proofs.NumFacts Proofs.FloatGrammar Proofs.SectionsFacts Proofs.RangeReal.
+From RM Require Import Proofs.DecimalRounding.
 From RM Require Import Gen.Generated.
 From Flocq Require Import BinarySingleNaN.
+From Flocq Require Zaux Raux Generic_fmt FLT Round_NE.
 From Coq Require Import Rdefinitions.
+From Coq Require Rbasic_fun Rfunctions.
 Open Scope Z_scope.
 
 (* ====================================================================== *)
@@ -272,8 +275,9 @@ Print Assumptions C11_parse_int_raw_accepts_iff.
    and lies within +-limit.  [fnum_to_float] is the model's decimal -> binary
    conversion (one correct rounding built from Flocq's division and rounding
    primitives); that it is THE nearest-even rounding of m*10^e as a real number
-   is not proved here -- it is tied to Rust's str::parse bit for bit by the
-   correspondence check (exact ties, subnormals, 768-digit expansions). *)
+   is proved below ("number conversion is correctly rounded"), and it is tied to
+   Rust's str::parse bit for bit by the correspondence check (exact ties,
+   subnormals, 768-digit expansions). *)
 Theorem C11_pn_f64_accepts_iff :
   forall s x, pn_f64 s = Some x <->
     exists neg m e,
@@ -328,6 +332,179 @@ Print Assumptions C11_f32_limit_refuted.
 Theorem C11_bookmarks_limit_refuted :
   exists line n, In n (ed_bookmarks (fst (parse_editor editor_default line))) /\ n < - max_parse_value.
 Proof. exact bookmarks_limit_refuted. Qed.
+
+(* ====================================================================== *)
+(* T11d: number conversion is correctly rounded                            *)
+(* ====================================================================== *)
+
+(* The decimal -> binary conversion of the model ([of_decimal], reached through
+   [fnum_to_float] by parse_f64_raw / parse_f32_raw and so by every number the
+   decoder reads) returns the IEEE-754 round-to-nearest-even of the real number
+   that was written, (-1)^s * m * 10^e; overflow gives the infinity of that sign;
+   a zero keeps the written sign.  (Rust's str::parse::<f64/f32> documents the
+   same contract; the correspondence check compares the two bit for bit.) *)
+
+(* the definitions the statements use, spelled out *)
+Example def_dec_value :
+  forall s m e, dec_value s m e = ((if s then -1 else 1) * IZR m * Rfunctions.powerRZ 10 e)%R.
+Proof. exact dec_value_powerRZ. Qed.
+Example def_round64 :
+  round64 = Generic_fmt.round Zaux.radix2 (FLT.FLT_exp (-1074) 53) Round_NE.ZnearestE /\
+  round32 = Generic_fmt.round Zaux.radix2 (FLT.FLT_exp (-149) 24) Round_NE.ZnearestE.
+Proof. split; reflexivity. Qed.
+Example def_rounds_to_f64 :
+  forall (z : F64) s x, rounds_to_f64 z s x =
+    (((Rbasic_fun.Rabs (round64 x) < Raux.bpow Zaux.radix2 1024)%R ->
+        B2R z = round64 x /\ is_finite z = true /\ Bsign z = s) /\
+     ((Raux.bpow Zaux.radix2 1024 <= Rbasic_fun.Rabs (round64 x))%R -> z = B754_infinity s)).
+Proof. reflexivity. Qed.
+Example def_rounds_to_f32 :
+  forall (z : F32) s x, rounds_to_f32 z s x =
+    (((Rbasic_fun.Rabs (round32 x) < Raux.bpow Zaux.radix2 128)%R ->
+        B2R z = round32 x /\ is_finite z = true /\ Bsign z = s) /\
+     ((Raux.bpow Zaux.radix2 128 <= Rbasic_fun.Rabs (round32 x))%R -> z = B754_infinity s)).
+Proof. reflexivity. Qed.
+(* the specification determines the float completely *)
+Theorem C11_rounding_spec_is_functional :
+  forall prec emax (z1 z2 : binary_float prec emax) s x,
+    correctly_rounded prec emax z1 s x -> correctly_rounded prec emax z2 s x -> z1 = z2.
+Proof. exact correctly_rounded_unique. Qed.
+Print Assumptions C11_rounding_spec_is_functional.
+
+(* generic in the format: of_decimal is the nearest-even rounding *)
+Theorem C11_of_decimal_correctly_rounded :
+  forall prec emax Hp He s m e, 0 <= m ->
+    correctly_rounded prec emax (Floats.of_decimal prec emax Hp He s m e) s (dec_value s m e).
+Proof. exact of_decimal_correct. Qed.
+Print Assumptions C11_of_decimal_correctly_rounded.
+Theorem C11_of_decimal_f64_correctly_rounded :
+  forall s m e, 0 <= m -> rounds_to_f64 (D.of_decimal s m e) s (dec_value s m e).
+Proof. exact of_decimal_f64_correct. Qed.
+Print Assumptions C11_of_decimal_f64_correctly_rounded.
+Theorem C11_of_decimal_f32_correctly_rounded :
+  forall s m e, 0 <= m -> rounds_to_f32 (S.of_decimal s m e) s (dec_value s m e).
+Proof. exact of_decimal_f32_correct. Qed.
+Print Assumptions C11_of_decimal_f32_correctly_rounded.
+
+(* the validity test inside of_decimal never fails: its NaN branch is unreachable *)
+Theorem C11_of_decimal_never_nan :
+  forall prec emax Hp He s m e, 0 <= m -> Floats.of_decimal prec emax Hp He s m e <> B754_nan.
+Proof. exact of_decimal_not_nan. Qed.
+Print Assumptions C11_of_decimal_never_nan.
+
+(* zero keeps the written sign: "-0", "-0.0e7" are negative zero *)
+Theorem C11_zero_keeps_written_sign :
+  (forall s e, D.of_decimal s 0 e = B754_zero s) /\
+  (forall s e, S.of_decimal s 0 e = B754_zero s) /\
+  (forall str neg e, parse_fnum str = Some (neg, FDec 0 e) -> parse_f64_raw str = Some (B754_zero neg)) /\
+  (forall str neg e, parse_fnum str = Some (neg, FDec 0 e) -> parse_f32_raw str = Some (B754_zero neg)).
+Proof.
+  exact (conj of_decimal_f64_zero (conj of_decimal_f32_zero (conj parse_f64_raw_zero parse_f32_raw_zero))).
+Qed.
+Print Assumptions C11_zero_keeps_written_sign.
+
+(* the parsers: whenever the text is a decimal literal (mantissa m, exponent e),
+   the float returned is that rounding -- including the two shortcuts of
+   fnum_to_float (more than 400 integer digits => infinity, below 10^-400 =>
+   zero), which never change the result *)
+Theorem C11_parse_f64_correctly_rounded :
+  forall str neg m e, parse_fnum str = Some (neg, FDec m e) ->
+    exists z, parse_f64_raw str = Some z /\ rounds_to_f64 z neg (dec_value neg m e) /\
+              z = D.of_decimal neg m e.
+Proof. exact parse_f64_raw_correct. Qed.
+Print Assumptions C11_parse_f64_correctly_rounded.
+Theorem C11_parse_f32_correctly_rounded :
+  forall str neg m e, parse_fnum str = Some (neg, FDec m e) ->
+    exists z, parse_f32_raw str = Some z /\ rounds_to_f32 z neg (dec_value neg m e) /\
+              z = S.of_decimal neg m e.
+Proof. exact parse_f32_raw_correct. Qed.
+Print Assumptions C11_parse_f32_correctly_rounded.
+
+(* the shortcuts, generically: for any format whose largest finite number is
+   below 10^400 and whose half-smallest-subnormal is above 10^-401, and any
+   mantissa with at most [len] digits *)
+Theorem C11_shortcuts_agree_with_rounding :
+  forall prec emax Hp He,
+    (Raux.bpow Zaux.radix2 emax <= Raux.bpow radix10 400)%R ->
+    (Raux.bpow radix10 (-401) <= Raux.bpow Zaux.radix2 (3 - emax - prec - 1))%R ->
+    forall neg m e len, 0 <= m < 10 ^ Z.of_nat len ->
+      fnum_to_float prec emax Hp He neg (FDec m e) len = Floats.of_decimal prec emax Hp He neg m e.
+Proof. exact fnum_to_float_is_of_decimal. Qed.
+Print Assumptions C11_shortcuts_agree_with_rounding.
+(* the digit count driving the shortcuts is exact when the fuel suffices, and it does *)
+Theorem C11_digit_count_exact :
+  (forall fuel m acc, 0 < m < 10 ^ Z.of_nat fuel ->
+     exists d, ndigits_aux fuel m acc = acc + d /\ 0 < d /\ 10 ^ (d - 1) <= m < 10 ^ d) /\
+  (forall str neg m e, parse_fnum str = Some (neg, FDec m e) -> 0 <= m < 10 ^ Z.of_nat (length str)).
+Proof. exact (conj ndigits_aux_spec parse_fnum_mantissa_bound). Qed.
+Print Assumptions C11_digit_count_exact.
+
+(* ParseNumber: every accepted f64 / f32 is exactly the nearest-even rounding
+   of the decimal written (accepted numbers are finite, so no overflow case) *)
+Theorem C11_pn_f64_correctly_rounded :
+  forall s x, pn_f64 s = Some x ->
+    exists neg m e, decimal_literal (trim s) neg m e /\
+      B2R x = round64 (dec_value neg m e) /\ is_finite x = true /\ Bsign x = neg.
+Proof. exact pn_f64_correctly_rounded. Qed.
+Print Assumptions C11_pn_f64_correctly_rounded.
+Theorem C11_pn_f32_correctly_rounded :
+  forall s x, pn_f32 s = Some x ->
+    exists neg m e, decimal_literal (trim s) neg m e /\
+      B2R x = round32 (dec_value neg m e) /\ is_finite x = true /\ Bsign x = neg.
+Proof. exact pn_f32_correctly_rounded. Qed.
+Print Assumptions C11_pn_f32_correctly_rounded.
+
+(* Bit patterns.  0.1 = 0x3fb999999999999a (f64), 0x3dcccccd (f32). *)
+Example ex_tenth : D.bits (D.of_decimal false 1 (-1)) = 4591870180066957722 /\
+                   S.bits (S.of_decimal false 1 (-1)) = 1036831949.
+Proof. vm_compute. split; reflexivity. Qed.
+(* exact ties go to the even neighbour.  Integers 2^53+1 -> 2^53, 2^53+3 -> 2^53+4
+   (both arithmetic branches: e = 0 and e = -1, i.e. "9007199254740993.0");
+   one digit beside the tie decides *)
+Example ex_ties_to_even_integers :
+  map (fun m => D.bits (D.of_decimal false m 0)) [2 ^ 53 + 1; 2 ^ 53 + 2; 2 ^ 53 + 3]
+  = [4845873199050653696; 4845873199050653697; 4845873199050653698] /\
+  map (fun m => D.bits (D.of_decimal false m (-1)))
+      [10 * (2 ^ 53 + 1); 10 * (2 ^ 53 + 1) + 1; 10 * (2 ^ 53 + 3) - 1; 10 * (2 ^ 53 + 3)]
+  = [4845873199050653696; 4845873199050653697; 4845873199050653697; 4845873199050653698] /\
+  map (fun m => S.bits (S.of_decimal false m 0)) [2 ^ 24 + 1; 2 ^ 24 + 3] = [1266679808; 1266679810].
+Proof. vm_compute. repeat split. Qed.
+(* 1 + 2^-53 (54 digits, exactly half-way between 1 and its successor) -> 1;
+   +-1 in the last digit; 1 + 3 * 2^-53 -> 1 + 2^-51 (even) *)
+Example ex_tie_above_one :
+  (forall a b, dec_value false (a * 10 ^ 53 + b * 5 ^ 53) (- 53) = (IZR a + IZR b * Raux.bpow Zaux.radix2 (- 53))%R) /\
+  map (fun m => D.bits (D.of_decimal false m (-53)))
+      [1 * 10 ^ 53 + 1 * 5 ^ 53; 1 * 10 ^ 53 + 1 * 5 ^ 53 + 1; 1 * 10 ^ 53 + 1 * 5 ^ 53 - 1; 1 * 10 ^ 53 + 3 * 5 ^ 53]
+  = [4607182418800017408; 4607182418800017409; 4607182418800017408; 4607182418800017410].
+Proof. split; [intros a b; apply dyadic_as_decimal; discriminate|vm_compute; reflexivity]. Qed.
+(* the smallest subnormal boundary: 5^1075 * 10^-1075 is EXACTLY 2^-1075, half the
+   smallest subnormal (2.4703282292062327208...e-324, 751 significant digits): the
+   tie rounds to even = +0; one unit in the last place more gives 2^-1074 (bits 1);
+   3 * 2^-1075 is the tie between 2^-1074 and 2^-1073 and goes to the even 2^-1073.
+   The 17-digit texts 4.9e-324, 2.4703282292062327e-324 (below the tie) and
+   2.4703282292062328e-324 (above). *)
+Example ex_smallest_subnormal_boundary :
+  (forall b, dec_value false (0 * 10 ^ 1075 + b * 5 ^ 1075) (- 1075) = (IZR 0 + IZR b * Raux.bpow Zaux.radix2 (- 1075))%R) /\
+  map (fun m => D.bits (D.of_decimal false m (-1075)))
+      [0 * 10 ^ 1075 + 1 * 5 ^ 1075; 5 ^ 1075 + 1; 5 ^ 1075 - 1; 0 * 10 ^ 1075 + 3 * 5 ^ 1075; 3 * 5 ^ 1075 - 1]
+  = [0; 1; 0; 2; 1] /\
+  map (fun s => omap D.bits (parse_f64_raw (lit s)))
+      ["4.9e-324"; "2.4703282292062327e-324"; "2.4703282292062328e-324"]%string
+  = [Some 1; Some 0; Some 1] /\
+  map (fun m => S.bits (S.of_decimal false m (-150))) [5 ^ 150; 5 ^ 150 + 1; 3 * 5 ^ 150] = [0; 1; 2].
+Proof.
+  split; [intros b; apply dyadic_as_decimal; discriminate|]. vm_compute. repeat split.
+Qed.
+(* overflow boundary (2^1024 - 2^970 = 1.79769313486231580793...e308), signed
+   zeros, and the two shortcuts *)
+Example ex_overflow_zero_shortcuts :
+  map (fun s => omap D.bits (parse_f64_raw (lit s)))
+      ["1.7976931348623158e308"; "1.7976931348623159e308"; "-1.7976931348623159e308";
+       "-0"; "-0.0e7"; "1e400"; "1e401"; "1e-400"; "-1e-500"; "1e309"; "1e-324"]%string
+  = [Some 9218868437227405311; Some 9218868437227405312; Some 18442240474082181120;
+     Some 9223372036854775808; Some 9223372036854775808; Some 9218868437227405312; Some 9218868437227405312;
+     Some 0; Some 9223372036854775808; Some 9218868437227405312; Some 0].
+Proof. vm_compute. reflexivity. Qed.
 
 (* ====================================================================== *)
 (* Clamps, approach rate, breaks, background                               *)
